@@ -23,12 +23,14 @@ from vcommon import Infra, drive, build_harness, copy_specs, monitor_report, run
 
 PROPS = ["C15", "C16"]
 DESIGN = {
-    "quick": [("FSStore.tla", "FSStore_crash.cfg"), ("FSCalls.tla", "FSCalls.cfg")],
-    "thorough": [("FSStore.tla", "FSStore_crash.cfg"), ("FSStore.tla", "FSStore_collide.cfg"), ("FSCalls.tla", "FSCalls.cfg")],
+    "quick": [("FSStore.tla", "FSStore_crash.cfg"), ("FSStore.tla", "FSStore_groups.cfg"), ("FSCalls.tla", "FSCalls.cfg")],
+    "thorough": [("FSStore.tla", "FSStore_crash.cfg"), ("FSStore.tla", "FSStore_groups.cfg"), ("FSStore.tla", "FSStore_collide.cfg"), ("FSCalls.tla", "FSCalls.cfg")],
 }
-# counterexamples that must exist: the recorded merge-window finding, and the repaired
-# "removals are not fsynced" defect with the repair switched off in the specification
-EXPECTED = [("FSStore.tla", "FSStore_window.cfg", "NoDuplicates"), ("FSStore.tla", "FSStore_nosync.cfg", "NoDuplicatesAfterMergeReturned")]
+# counterexamples that must exist: the recorded merge-window finding, the repaired "removals are not fsynced" defect
+# with the repair switched off in the specification, and a failed two-group merge whose tombstone of the first group's
+# published output is not fsynced
+EXPECTED = [("FSStore.tla", "FSStore_window.cfg", "NoDuplicates"), ("FSStore.tla", "FSStore_nosync.cfg", "NoDuplicatesAfterMergeReturned"),
+            ("FSStore.tla", "FSStore_tombnosync.cfg", "NoDuplicatesAfterMergeReturned")]
 
 
 def run_monitor(work, module, trace_name, src):
